@@ -159,6 +159,10 @@ func check(c Case) error {
 		for i, p := range c.Parts {
 			other.Parts[i] = PartSpec{Seq: p.Seq, Circular: !p.Circular}
 		}
+		// ... and the pool as it is with another enzyme (whose sites it need not hold at all)
+		otherEnzyme := c
+		otherEnzyme.Enzyme = map[string]string{"BsaI": "BbsI", "BbsI": "BtgZI", "BtgZI": "BsaI"}[c.Enzyme]
+		_, _ = vk.WithDeadline(30*time.Second, func() { _, _ = run(otherEnzyme, nil) })
 		if finished, _ := vk.WithDeadline(30*time.Second, func() { _, _ = run(other, nil) }); !finished {
 			sub := subGoldenGate
 			if abortSub != nil {
